@@ -37,6 +37,10 @@
      C14_respace        (Lex/WsInsert.v) the same for ANY NUMBER of places at once and for REPLACING white space by other
                         white space: tabs vs spaces, indentation, trailing white space; C14_crlf_same: CR LF line
                         ends instead of LF, when no string literal runs over a line end (needed: example).
+     C14_respace_same_parser_input, C14_crlf_same_parser_input, C14_ws_insert_same_parser_input (Parse/SourceLayout.v)
+                        the same with the comments kept: the token list the PARSER is given (map classify (lex ..))
+                        is literally the same, hence C14_respace_same_program / C14_crlf_same_program: source text
+                        to tree, the same outcome.
    Nothing of this file is left as an unproved Prop except the refuted first formulation
    C14_nl_in_brackets_statement_level (kept visible next to its refutation).  *)
 From Coq Require Import String List NArith Bool Arith.
@@ -44,7 +48,7 @@ From Sylt Require Import Lex.Regex Lex.Logos Lex.LayoutProofs Gen.GenTokens
   Syntax.Ast Syntax.Tok Parse.PrecTable Parse.Parser Parse.ParserProofs Parse.OpTree Parse.ExprRoundTrip
   Parse.Sugar Parse.Layout Parse.LayoutSim Parse.ParserTotal Parse.PreSim Parse.LayoutStmt Gen.GenPrec.
 From Sylt Require Parse.SimGen Parse.CommentSim.
-From Sylt Require Lex.WsInsert.
+From Sylt Require Lex.WsInsert Parse.SourceLayout.
 From Sylt Require Import Syntax.SugarNF Parse.StmtRoundTrip Parse.SugarNFProofs.
 Import ListNotations.
 
@@ -331,6 +335,22 @@ Definition C14_after_string : live := firstn 65 (skipn 7 (start_live gen_table))
 
 (* the facts about the table are checked by computation *)
 Ltac c14_table_fact := first [vm_compute; reflexivity | split; vm_compute; reflexivity].
+Lemma C14_tab_L0 : start_live gen_table
+  = (C14_before_string ++ [(C14_pString, Lex.WsInsert.S0)] ++ C14_after_string
+     ++ [(C14_pComment, Lex.WsInsert.C0); (C14_pWhitespace, Lex.WsInsert.W0)])%list.
+Proof. vm_compute. reflexivity. Qed.
+Lemma C14_tab_E1 : Lex.WsInsert.allw C14_before_string = true.
+Proof. vm_compute. reflexivity. Qed.
+Lemma C14_tab_E2 : Lex.WsInsert.allw C14_after_string = true.
+Proof. vm_compute. reflexivity. Qed.
+Lemma C14_tab_34 : step_live 34 C14_before_string = [] /\ step_live 34 C14_after_string = [].
+Proof. split; vm_compute; reflexivity. Qed.
+Lemma C14_tab_47 : step_live 47 (step_live 47 C14_before_string ++ step_live 47 C14_after_string)%list = [].
+Proof. vm_compute. reflexivity. Qed.
+Lemma C14_tab_cbW : p_cb C14_pWhitespace = CbSkip.
+Proof. reflexivity. Qed.
+Lemma C14_tab_cbC : p_cb C14_pComment = CbComment /\ p_kind C14_pComment = "Comment"%string.
+Proof. split; reflexivity. Qed.
 
 Theorem C14_ws_insert_whole_input : ws_insert_statement gen_table.
 Proof.
@@ -393,6 +413,61 @@ Example C14_crlf_defs :
   (forall r, Lex.WsInsert.nl_alone r
              = (eqb_list (r_text r) [10%N] || negb (existsb (N.eqb 10) (r_text r)))).
 Proof. split; reflexivity. Qed.
+
+(* ---- the same, for what the PARSER is given ----
+   Entry.drive runs the parser model on [map classify (lex gen_table source)]: all tokens, comments too (a comment
+   is one token without text).  Re-spaced source text and CR LF line ends give the parser literally the same token
+   list - hence the same tree, the same consumed count and the same error positions (as token indices). *)
+Theorem C14_ws_insert_same_parser_input : forall s1 s2 ws rs1, ws <> [] -> forallb is_ws_char ws = true ->
+  concat (map r_text rs1) = s1 ->
+  raw_lex (length (s1 ++ s2)) gen_table (s1 ++ s2) = rs1 ++ raw_lex (length s2) gen_table s2 ->
+  map classify (lex gen_table (s1 ++ ws ++ s2)) = map classify (lex gen_table (s1 ++ s2)).
+Proof.
+  intros s1 s2 ws rs1 Hne Hws Hc H. apply Parse.SourceLayout.same_ckinds_same_tokens.
+  apply (Lex.WsInsert.ws_insert_c gen_table C14_pString C14_pComment C14_pWhitespace C14_before_string C14_after_string
+           C14_tab_L0 C14_tab_E1 C14_tab_E2 C14_tab_34 C14_tab_47 C14_tab_cbW C14_tab_cbC);
+    [exact Hne|exact Hws|exists rs1; split; assumption].
+Qed.
+
+Theorem C14_respace_same_parser_input : forall s u0 us,
+  length us = length (raw_lex (length s) gen_table s) ->
+  forallb is_ws_char u0 = true ->
+  Forall Lex.WsInsert.u_ok (combine (raw_lex (length s) gen_table s) us) ->
+  map classify (lex gen_table (u0 ++ Lex.WsInsert.weave (combine (raw_lex (length s) gen_table s) us)))
+  = map classify (lex gen_table s).
+Proof.
+  intros s u0 us Hl Hu0 Hu. apply Parse.SourceLayout.same_ckinds_same_tokens.
+  apply (Lex.WsInsert.respace_c gen_table C14_pString C14_pComment C14_pWhitespace C14_before_string C14_after_string
+           C14_tab_L0 C14_tab_E1 C14_tab_E2 C14_tab_34 C14_tab_47 C14_tab_cbW C14_tab_cbC C14_skip_ok); assumption.
+Qed.
+
+Theorem C14_crlf_same_parser_input : forall s,
+  forallb Lex.WsInsert.nl_alone (raw_lex (length s) gen_table s) = true ->
+  map classify (lex gen_table (Lex.WsInsert.crlf s)) = map classify (lex gen_table s).
+Proof.
+  intros s H. apply Parse.SourceLayout.same_ckinds_same_tokens.
+  apply (Lex.WsInsert.crlf_same_c gen_table C14_pString C14_pComment C14_pWhitespace C14_before_string C14_after_string
+           C14_tab_L0 C14_tab_E1 C14_tab_E2 C14_tab_34 C14_tab_47 C14_tab_cbW C14_tab_cbC C14_skip_ok); assumption.
+Qed.
+
+(* whole files, source text to tree: the same outcome for every fuel (tree, or error positions, or out of fuel) *)
+Corollary C14_crlf_same_program : forall T f s,
+  forallb Lex.WsInsert.nl_alone (raw_lex (length s) gen_table s) = true ->
+  parse_program T f (map classify (lex gen_table (Lex.WsInsert.crlf s)))
+  = parse_program T f (map classify (lex gen_table s)).
+Proof. intros T f s H. rewrite (C14_crlf_same_parser_input s H). reflexivity. Qed.
+
+Corollary C14_respace_same_program : forall T f s u0 us,
+  length us = length (raw_lex (length s) gen_table s) ->
+  forallb is_ws_char u0 = true ->
+  Forall Lex.WsInsert.u_ok (combine (raw_lex (length s) gen_table s) us) ->
+  parse_program T f (map classify (lex gen_table (u0 ++ Lex.WsInsert.weave (combine (raw_lex (length s) gen_table s) us))))
+  = parse_program T f (map classify (lex gen_table s)).
+Proof. intros T f s u0 us Hl Hu0 Hu. rewrite (C14_respace_same_parser_input s u0 us Hl Hu0 Hu). reflexivity. Qed.
+
+Print Assumptions C14_ws_insert_same_parser_input.
+Print Assumptions C14_respace_same_parser_input.
+Print Assumptions C14_crlf_same_program.
 
 (* ---- non-vacuity ---- *)
 Definition nm (s : string) : name := ascii_name s.
@@ -546,16 +621,16 @@ Proof. vm_compute. reflexivity. Qed.
 
 (* re-spacing and CRLF on a small program: the hypotheses hold, the texts differ, the tokens do not *)
 Definition C14_src_lf : list N :=
-  (codes "loop a < 3 do // count" ++ [10]%N ++ codes "  a = a + 1" ++ [10]%N ++ codes "end" ++ [10]%N)%list.
+  (codes "main :: fn do // count" ++ [10]%N ++ codes "  a := 1 + 2" ++ [10]%N ++ codes "end" ++ [10]%N)%list.
 Definition C14_src_respaced : list N :=
-  (codes "	loop	a  <	3 do   // count  " ++ [13; 10]%N ++ codes "		a =  a	+ 1 	" ++ [13; 10]%N ++ codes "end  " ++ [10]%N)%list.
+  (codes "	main	::  fn do   // count  " ++ [13; 10]%N ++ codes "		a :=  1	+ 2 	" ++ [13; 10]%N ++ codes "end  " ++ [10]%N)%list.
 Example C14_example_respace :
   kinds (lex gen_table C14_src_respaced) = kinds (lex gen_table C14_src_lf) /\ C14_src_respaced <> C14_src_lf.
 Proof. split; [vm_compute; reflexivity|discriminate]. Qed.
 Example C14_example_crlf :
   forallb Lex.WsInsert.nl_alone (raw_lex (length C14_src_lf) gen_table C14_src_lf) = true /\
   Lex.WsInsert.crlf C14_src_lf
-  = (codes "loop a < 3 do // count" ++ [13; 10]%N ++ codes "  a = a + 1" ++ [13; 10]%N ++ codes "end" ++ [13; 10]%N)%list /\
+  = (codes "main :: fn do // count" ++ [13; 10]%N ++ codes "  a := 1 + 2" ++ [13; 10]%N ++ codes "end" ++ [13; 10]%N)%list /\
   kinds (lex gen_table (Lex.WsInsert.crlf C14_src_lf)) = kinds (lex gen_table C14_src_lf).
 Proof.
   assert (H : forallb Lex.WsInsert.nl_alone (raw_lex (length C14_src_lf) gen_table C14_src_lf) = true)
@@ -568,6 +643,19 @@ Example C14_example_crlf_string :
   forallb Lex.WsInsert.nl_alone (raw_lex (length s) gen_table s) = false /\
   kinds (lex gen_table (Lex.WsInsert.crlf s)) <> kinds (lex gen_table s).
 Proof. split; [vm_compute; reflexivity|vm_compute; discriminate]. Qed.
+Example C14_example_source_to_tree :
+  map classify (lex gen_table C14_src_respaced) = map classify (lex gen_table C14_src_lf) /\
+  (exists ss c, parse_program gen_ptab (parse_fuel (map classify (lex gen_table C14_src_lf)))
+                  (map classify (lex gen_table C14_src_lf)) = Ok (ss, c) /\ ss <> []) /\
+  parse_program gen_ptab (parse_fuel (map classify (lex gen_table (Lex.WsInsert.crlf C14_src_lf))))
+    (map classify (lex gen_table (Lex.WsInsert.crlf C14_src_lf)))
+  = parse_program gen_ptab (parse_fuel (map classify (lex gen_table C14_src_lf)))
+      (map classify (lex gen_table C14_src_lf)).
+Proof.
+  split; [vm_compute; reflexivity|split].
+  - vm_compute. eexists. eexists. split; [reflexivity|discriminate].
+  - rewrite (C14_crlf_same_parser_input C14_src_lf) by (vm_compute; reflexivity). reflexivity.
+Qed.
 
 Print Assumptions C14_table_ok.
 Print Assumptions C14_arrow_ok.
